@@ -71,7 +71,8 @@ PROPS = {
         "lean": "Originium.Props.C03",
         "suites": ["key", "crash", "closerace"],
         "skeleton_funcs": FS_SKEL,
-        "trusted_base": DB_TB + FS_TB + ["extract/gotrans.go (DESIGN section 14) regenerates GenLevel.maxLevelIdx (levelManager.maxLevelIdx) from /repo on every run; LevelTie.maxLevelIdx_fresh (the next table name of a level is fresh) is part of this property's module; container/list is a list"],
+        "trusted_base": DB_TB + FS_TB + ["extract/gotrans.go (DESIGN section 14) regenerates GenLevel.maxLevelIdx (levelManager.maxLevelIdx) from /repo on every run; LevelTie.maxLevelIdx_fresh (the next table name of a level is fresh) is part of this property's module; container/list is a list",
+                                         "extract/gotrans.go also regenerates, as ordered event traces with the called functions as events: GenDB.flushImmutable, GenDB.recoverWals (memtable.recover's merge loop), GenLevel.compactLN, GenLevel.compactL0, GenLevel.flushToL0 and GenLevel.writeTable; DBTie.flushImmutable_table / recoverWals_eq and LevelTie.compactLN_table / compactL0_table / flushToL0_table / writeTable_table are part of this property's module"],
         "assumptions": ["process-crash model: every completed file-system call persists; one hook call = one operation = one crash point; a wal batch is one write call",
                         "which operations the engine emits: the program model Prog (foreground: commit/rotate/Close/Open with wal replay; flusher: flush/compaction; all interleavings, crash anywhere) is proved to emit only accepted events (Prog.never_rejected); that the code is this program is tied dynamically (every recorded trace, recoveries of crash images included, must be a trace of Prog.act) and by the re-extracted sync/fs skeleton",
                         "the model names tables freshly and lets a wal id grow with creation time; the replay order of older wals is whatever Open's directory listing says"],
@@ -90,7 +91,7 @@ PROPS = {
         "lean": "Originium.Props.C14",
         "suites": ["key", "codec", "crash"],
         "skeleton_funcs": FS_SKEL,
-        "trusted_base": DB_TB + FS_TB,
+        "trusted_base": DB_TB + FS_TB + ["extract/gotrans.go (DESIGN section 14) regenerates GenLevel.writeTable (levelManager.writeTable: the order of create, write, fsync, close and rename of a table file, error branches included) from /repo on every run; LevelTie.writeTable_table / writeTable_rename_after_sync are part of this property's module; the os calls are events"],
         "assumptions": ["directory operations (create, rename, remove) are ordered and durable, as the property states; only file contents after the last fsync can be lost",
                         "that the code is the program Prog is tied dynamically (recorded traces must be traces of Prog.act) and by the skeleton"],
         "explanation": "CutOf (wals keep at least their synced records, tmp files arbitrary, published tables intact) preserves Inv and WF; recover on any cut disk serves every acknowledged entry; the program model Prog with lossy crash steps (Reach) keeps Inv/WF and never emits a rejected event, recoveries after a loss included; crash suite cuts unsynced tails of every file at several lengths at every crash point",
